@@ -1,7 +1,9 @@
 /- Line-protocol driver for C03: signature / variables-dict IR of the method generator, Python call
-   binding, GraphQL variable coercion, input-class attributes, and the whole `send` pipeline. -/
+   binding, GraphQL variable coercion, input-class attributes per schema source, construction of input-model
+   instances (`Cls(**kw)`), and the whole `send` pipeline. -/
 import AriadneModel.Driver.ArgWire
 import AriadneModel.Model.ArgFindings
+import AriadneModel.Model.ArgConstruct
 
 open Lean (Json)
 open Ariadne Ariadne.Wire Ariadne.ArgWire Ariadne.Scalars Ariadne.Coerce Ariadne.ArgValues
@@ -45,6 +47,12 @@ def encTriggers (env : Env) (defs : List VarDef) : Json :=
     ("trigMerge", trigMerge env.snake defs), ("trigQueryClobber", trigQueryClobber env.snake defs),
     ("trigShadow", trigShadow env defs), ("trigMangled", trigMangled env.snake defs), ("trigSerializeNullable", trigSerializeNullable env defs),
     ("trigSerializeList", trigSerializeList env defs)]
+
+/-- "source": "sdl" (default) | "intro" -/
+def decSource (j : Json) : ArgConstruct.Source :=
+  match optStr j "source" with
+  | some "intro" => .intro
+  | _ => .sdl
 
 def encPyErr : PyCall.PyErr → Json
   | .syntaxError m => Json.mkObj [("error", "SyntaxError"), ("msg", m)]
@@ -95,14 +103,27 @@ def handle (j : Json) : Except String Json := do
     let s ← decISchema (← field j "schema")
     let scalars ← decScalars j "scalars"
     let snake := GqlWire.boolD j "snake" true
+    let src := decSource j
     let out ← (← arrOf j "fields").mapM fun f => do
       let fd ← decIField f
       let d := InputFields.fieldDecl snake scalars (InputFields.kindOf s) fd.name fd.type
-      let dk := match InputFields.defaultKind fd.default fd.type with
+      let dk := match ArgConstruct.classDefault src d.ann fd.default fd.type with
         | .required => "required" | .none => "none" | .value => "value"
       pure (Json.mkObj [("py", d.py), ("alias", match d.alias with | some a => Json.str a | none => Json.null),
         ("ann", encNAnn d.ann), ("default", dk)])
     pure (.arr out.toArray)
+  | "construct" =>
+    -- `Cls(**kw)` on the class generated for input type "cls" from a schema obtained by "source"
+    let cfg : Cfg := { schema := ← decISchema (← field j "schema"), scalars := ← decScalars j "scalars",
+                       snake := GqlWire.boolD j "snake" true }
+    let kw ← (← arrOf j "kw").mapM fun p => do
+      let pr ← p.getArr?
+      if h : pr.size = 2 then pure (← pr[0].getStr?, ← decAV pr[1]) else throw "kw pair"
+    match PydInit.initModel (ArgConstruct.classFields (decSource j) cfg (← fieldStr j "cls")) kw with
+    | .ok inst =>
+      pure (Json.mkObj [("ok", Json.mkObj [("keys", strs (inst.map (·.1.key))),
+        ("set", strs ((inst.filter (fun p => !p.2.isUnset)).map (·.1.key)))])])
+    | .error e => pure (Json.mkObj [("error", Json.mkObj [("missing", strs e.missing), ("invalid", strs e.invalid)])])
   | "intended" =>
     let cfg : Cfg := { schema := ← decISchema (← field j "schema"), scalars := ← decScalars j "scalars",
                        snake := GqlWire.boolD j "snake" true }
@@ -116,7 +137,8 @@ def handle (j : Json) : Except String Json := do
         else (ok && hasType cfg d.type v, (d.name, intended cfg tagFns v) :: rest)
       | _, _ => (true, [])
     let (ok, out) := go defs vals
-    pure (Json.mkObj [("valid", ok), ("intended", encKvsJ out)])
+    pure (Json.mkObj [("valid", ok), ("intended", encKvsJ out),
+      ("lost", ArgConstruct.trigDefaultLostIntro (decSource j) cfg vals)])
   | "send" =>
     let env ← decEnv j
     let defs ← decDefs j
